@@ -394,6 +394,7 @@ def coq_build(targets=None, timeout=1500):
                         os.path.join(COQ, "Extracted.v")], capture_output=True, text=True)
     if p.returncode != 0:
         return False, "translate.py failed: " + p.stderr.strip()
+    tnote = p.stderr.strip()       # facts that could not be translated (their users will not compile)
     if not os.path.exists(os.path.join(COQ, "Makefile")) or \
             os.path.getmtime(os.path.join(COQ, "Makefile")) < os.path.getmtime(os.path.join(COQ, "_CoqProject")):
         q = subprocess.run(["coq_makefile", "-f", "_CoqProject", "-o", "Makefile"], cwd=COQ,
@@ -407,7 +408,7 @@ def coq_build(targets=None, timeout=1500):
     log(f"[coq] make {' '.join(targets or ['all'])}: rc={q.returncode} in {time.time() - t0:.1f}s")
     if q.returncode != 0:
         err = [l for l in (q.stdout + q.stderr).splitlines() if not l.startswith(("COQC", "COQDEP", "make"))]
-        return False, "\n".join(err[-30:])
+        return False, (tnote + "\n" if tnote else "") + "\n".join(err[-30:])
     return True, q.stdout + q.stderr
 
 
